@@ -21,6 +21,19 @@ const c3MaxSteps = 20000 // programs of the grammar that terminate need < 1000 s
 
 var c3ValueSpellings = []string{"0", "1", "2", "1.5", `"a"`, "true", "false", "null", "[1]"}
 
+// The second free variable q additionally takes a second string and a second
+// array: `+` concatenates strings and arrays, so operand order is observable
+// only between two distinguishable values of those types (p="a", q="b").
+var c3ValueSpellingsQ = append(append([]string{}, c3ValueSpellings...), `"b"`, "[2]")
+
+// c3ValuesOf: the value set of one free variable.
+func c3ValuesOf(name string) []string {
+	if name == "q" {
+		return c3ValueSpellingsQ
+	}
+	return c3ValueSpellings
+}
+
 func c3Value(sp string) vm.Value {
 	switch sp {
 	case "true":
@@ -31,6 +44,8 @@ func c3Value(sp string) vm.Value {
 		return vm.NullValue{}
 	case "[1]":
 		return vm.ArrayValue{Val: []vm.Value{vm.IntValue{Val: 1}}}
+	case "[2]":
+		return vm.ArrayValue{Val: []vm.Value{vm.IntValue{Val: 2}}}
 	}
 	if strings.HasPrefix(sp, `"`) {
 		s, _ := strconv.Unquote(sp)
@@ -58,13 +73,13 @@ func (b c3Binding) String() string {
 	return strings.Join(parts, ",")
 }
 
-// c3Bindings enumerates every assignment of the value set to vars.
+// c3Bindings enumerates every assignment of the variables' value sets to vars.
 func c3Bindings(vars []string) []c3Binding {
 	out := []c3Binding{{}}
 	for _, n := range vars {
 		var next []c3Binding
 		for _, b := range out {
-			for _, sp := range c3ValueSpellings {
+			for _, sp := range c3ValuesOf(n) {
 				nb := c3Binding{}
 				for k, v := range b {
 					nb[k] = v
